@@ -85,6 +85,12 @@ CLAIMED["C15"] = dict(
     technique="symbolic execution of real code (CrossHair+z3) over event schedules, feed sizes and frame validity on a deterministic asyncio loop",
 )
 
+CLAIMED["C16"] = dict(
+    text="Bounded symbolic execution of the real AsyncDatagramServer (serve, client coroutine, inner loop, task-done respawn), _ClientData, the real DatagramListenerProtocol and build_lowlevel_datagram_server_handler on a deterministic loop: two client addresses, a solver-chosen interleaving of arrivals and loop iterations, datagrams well-formed or malformed by solver choice, handler shapes (returns after k requests, suspends s iterations, yields timeout None/0, blocks forever for one client). Asserted: per-address exactly-once in-order delivery of requests and parse errors, never two active generators per address, everything handled within the step budget, a blocked client does not delay the other, the server task never crashes.",
+    design="4/C16",
+    technique="symbolic execution of real code (CrossHair+z3) over arrival interleavings and datagram validity on a deterministic asyncio loop",
+)
+
 NOT_APPLICABLE = {
     "C08": "TLS byte-transparency/encryption is decided inside OpenSSL's record layer (C code, cryptography): it cannot be executed symbolically by any installed engine; stubbing it would verify the stub, and running real OpenSSL realises every symbolic size (degenerates to concrete enumeration). See DESIGN.md section 5.",
     "C09": "Whether a cut at a byte offset of a real ciphertext stream yields SSLEOFError / SSLZeroReturnError / a protocol error is OpenSSL's partial-record parsing, not encodable; the EasyNetwork part is a three-way exception mapping. See DESIGN.md section 5.",
